@@ -168,6 +168,46 @@ func c06Next(s *comp.VerifMsiSnapshot, mem []int8, base int32) []int8 {
 	return out
 }
 
+// c06RenderL3 (MVP-8 only; work package L3): the sections `l3=` and `l3d=` of a snapshot line —
+// every L3 line, most recently used first, as base:size:flag:data:mem with flag d (msi.l3Write set
+// for the line's base) or c, `mem` = the memory bytes of the line's range inside memory (`~` when
+// they equal the line's bytes there), and the complete list of set l3Write flags. The Lean driver
+// evaluates Model.L3.cleanB on it (answer `l3clean=`); the Go side's own verdict is `l3v=`.
+func c06RenderL3(s *comp.VerifMsiSnapshot, mem []int8) string {
+	if s.L3LineSize == 0 {
+		return ""
+	}
+	dirty := map[int32]bool{}
+	for _, a := range s.L3Dirty {
+		dirty[a] = true
+	}
+	var sb strings.Builder
+	sb.WriteString("l3=")
+	for i, l := range s.L3 {
+		if i > 0 {
+			sb.WriteByte('+')
+		}
+		flag := "c"
+		if dirty[l.Base] {
+			flag = "d"
+		}
+		lo, hi := int(l.Base), int(l.Base)+len(l.Data)
+		if hi > len(mem) {
+			hi = len(mem)
+		}
+		m := "~"
+		if lo < 0 || lo > hi {
+			m = "z0"
+		} else if !c06Eq(mem[lo:hi], l.Data[:hi-lo]) {
+			m = c06Data(mem[lo:hi])
+		}
+		fmt.Fprintf(&sb, "%d:%d:%s:%s:%s", l.Base, l.End-l.Base, flag, c06Data(l.Data), m)
+	}
+	sb.WriteString(" ; l3d=")
+	sb.WriteString(c06Join32(s.L3Dirty, "+"))
+	return sb.String()
+}
+
 func c06Fill(c *comp.VerifMsiCore) []int32 {
 	var f []int32
 	if c.ReadActive {
@@ -471,6 +511,10 @@ func c06Hash(s *comp.VerifMsiSnapshot, mem []int8) uint64 {
 		mix(uint64(uint32(l.Base)))
 		mix(bytesH(l.Data))
 	}
+	mix(0xa5)
+	for _, a := range s.L3Dirty {
+		mix(uint64(uint32(a)))
+	}
 	return h
 }
 
@@ -478,6 +522,9 @@ type c06Run struct {
 	lines    []c06Line
 	prevHash uint64
 	prev     string
+	prevL3   string // the l3= / l3d= sections of prev ("" when the variant has no L3)
+	lastL3   string // the sections last written to a line (a line that repeats them says l3=^)
+	prevAux  string // Go's verdict on Model.L3.Clean for prev: ok | stale
 	prevOut  string
 	prevAt   int
 	rep      int
@@ -496,8 +543,18 @@ func (r *c06Run) flushPrev() {
 	if r.prev == "" {
 		return
 	}
-	if r.distinct <= r.maxEmit || r.prevOut != "ok" {
-		r.lines = append(r.lines, c06Line{fmt.Sprintf("S %d %d ; %s", r.prevAt, r.rep, r.prev), r.prevOut})
+	if r.distinct <= r.maxEmit || r.prevOut != "ok" || r.prevAux == "stale" {
+		body := r.prev
+		if r.prevL3 != "" {
+			if r.prevL3 == r.lastL3 {
+				body += " ; l3=^"
+			} else {
+				body += " ; " + r.prevL3
+				r.lastL3 = r.prevL3
+			}
+			body += " ; l3v=" + r.prevAux
+		}
+		r.lines = append(r.lines, c06Line{fmt.Sprintf("S %d %d ; %s", r.prevAt, r.rep, body), r.prevOut})
 	}
 	r.prev = ""
 }
@@ -511,7 +568,8 @@ func (r *c06Run) observe(cycle int, s comp.VerifMsiSnapshot, mem []int8) {
 	}
 	r.prevHash = h
 	body := c06Render(&s, mem)
-	if body == r.prev {
+	l3 := c06RenderL3(&s, mem)
+	if body == r.prev && l3 == r.prevL3 {
 		r.rep++
 		return
 	}
@@ -527,13 +585,15 @@ func (r *c06Run) observe(cycle int, s comp.VerifMsiSnapshot, mem []int8) {
 		}
 	}
 	a, b := c06Aux(&s, mem)
+	aux := "ok"
 	if a {
 		r.l3stale++
+		aux = "stale"
 	}
 	if b {
 		r.lockacct++
 	}
-	r.prev, r.prevOut, r.prevAt, r.rep = body, out, cycle, 1
+	r.prev, r.prevL3, r.prevAux, r.prevOut, r.prevAt, r.rep = body, l3, aux, out, cycle, 1
 	r.distinct++
 }
 
